@@ -43,6 +43,11 @@ type job struct {
 	Perm       []mgen.Ref      `json:"perm,omitempty"`
 	WellFormed bool            `json:"wellFormed"`
 	Expect     string          `json:"expect,omitempty"`
+	// hand-written files placed in the output directory before generation; the typerefs they make custom; and a second
+	// project generated against this project's EMITTED manifest
+	Files      map[string]string `json:"files,omitempty"`
+	Custom     []mgen.Ref        `json:"custom,omitempty"`
+	Downstream json.RawMessage   `json:"downstream,omitempty"`
 }
 
 type outcome struct {
@@ -208,8 +213,15 @@ func fileCount(r *result) int {
 }
 
 func caseOf(r *result) interface{} {
-	return map[string]interface{}{"kind": "manifest", "family": r.job.Family, "name": r.job.Name, "packageRoot": r.job.Root,
+	c := map[string]interface{}{"kind": "manifest", "family": r.job.Family, "name": r.job.Name, "packageRoot": r.job.Root,
 		"perm": r.job.Perm, "wellFormed": r.job.WellFormed, "expect": r.job.Expect, "manifest": r.job.Manifest}
+	if len(r.job.Files) > 0 {
+		c["files"], c["custom"] = r.job.Files, r.job.Custom
+	}
+	if len(r.job.Downstream) > 0 {
+		c["downstream"] = r.job.Downstream
+	}
+	return c
 }
 
 // ------------------------------------------------------------------------------------------------ jobs
@@ -217,7 +229,13 @@ func caseOf(r *result) interface{} {
 func newJob(k int, mk func(root string) *mgen.Manifest) *job {
 	name := fmt.Sprintf("g%03d", k)
 	m := mk(ws.RootFor(name))
-	return &job{Name: name, Family: m.Family, Root: m.Root, Manifest: m.JSON(), Perm: m.PermIDs, WellFormed: m.WellFormed, Expect: m.Expect}
+	j := &job{Name: name, Family: m.Family, Root: m.Root, Manifest: m.JSON(), Perm: m.PermIDs, WellFormed: m.WellFormed, Expect: m.Expect,
+		Files: m.HandWritten, Custom: m.Custom}
+	if m.Downstream != nil {
+		m.Downstream.Root = ws.RootFor(name + "d")
+		j.Downstream = m.Downstream.JSON()
+	}
+	return j
 }
 
 var distribution = map[string]int{}
@@ -231,6 +249,7 @@ func grammarJobs(cfg *hx.Config, rnd *hx.Rand) []*job {
 	add(func(root string) *mgen.Manifest { return mgen.Collections(root, quickKeys) })
 	add(mgen.SimpleActionsSubs)
 	add(mgen.Namespaces)
+	add(mgen.CustomTyperefs)
 	add(mgen.WitnessOrder)
 	add(mgen.WitnessPackageCycle)
 	add(mgen.WitnessCrossGroup)
@@ -281,6 +300,9 @@ func replayJobs(path string) []*job {
 			WellFormed bool            `json:"wellFormed"`
 			Expect     string          `json:"expect"`
 			Manifest   json.RawMessage `json:"manifest"`
+			Files      map[string]string `json:"files"`
+			Custom     []mgen.Ref        `json:"custom"`
+			Downstream json.RawMessage   `json:"downstream"`
 		} `json:"case"`
 	}
 	must(json.Unmarshal(b, &rp))
@@ -293,8 +315,15 @@ func replayJobs(path string) []*job {
 	name := "g000"
 	mm["packageRoot"] = ws.RootFor(name)
 	nb, _ := json.MarshalIndent(mm, "", " ")
-	return []*job{{Name: name, Family: rp.Case.Family, Root: ws.RootFor(name), Manifest: nb, Perm: rp.Case.Perm,
-		WellFormed: rp.Case.WellFormed, Expect: rp.Case.Expect}}
+	j := &job{Name: name, Family: rp.Case.Family, Root: ws.RootFor(name), Manifest: nb, Perm: rp.Case.Perm,
+		WellFormed: rp.Case.WellFormed, Expect: rp.Case.Expect, Files: rp.Case.Files, Custom: rp.Case.Custom}
+	if len(rp.Case.Downstream) > 0 {
+		var dm map[string]interface{}
+		must(json.Unmarshal(rp.Case.Downstream, &dm))
+		dm["packageRoot"] = ws.RootFor(name + "d")
+		j.Downstream, _ = json.MarshalIndent(dm, "", " ")
+	}
+	return []*job{j}
 }
 
 // ------------------------------------------------------------------------------------------------ one manifest
@@ -386,6 +415,7 @@ func runJob(j *job) *result {
 	r.inputIDs = inputTypeIDs(j.Manifest)
 	outDirs := []string{ws.DirFor(j.Name), filepath.Join(scratch, "run2", j.Name), filepath.Join(scratch, "run3", j.Name)}
 	for _, d := range outDirs {
+		placeFiles(d, j.Files)
 		g := mgen.RunGen(rungen, mpath, d, deps, false)
 		r.full = append(r.full, g)
 		r.files = append(r.files, snapshot(d))
@@ -466,12 +496,34 @@ func runJob(j *job) *result {
 	}
 	// (5) every type is declared where the registry says
 	for _, e := range ok.Registry {
-		if e.Root != j.Root {
-			continue
+		if e.Root != j.Root || isCustom(j, e) {
+			continue // a custom typeref is declared by its hand-written file; go build below checks that
 		}
 		file := filepath.Join(outDirs[0], strings.TrimPrefix(e.Package, j.Root), e.TypeName+utils.GeneratedFileSuffix)
 		if msg := checkDecl(file, e.TypeName, utils.PackageName(e.Package)); msg != "" {
 			fail("missing-type-declaration", fmt.Sprintf("%s.%s: %s", e.Namespace, e.Name, msg), "v2/codegen/utils/codefile.go:Write")
+			return r
+		}
+	}
+	if len(j.Files) > 0 {
+		// (5b) the emitted manifest records isCustom for every typeref made custom by a hand-written file: dependent
+		// projects learn it from there only
+		// (C12_SKIP_EMITTED_CHECK: development aid, to see oracle (7) fire on its own)
+		if missing := notCustomInEmitted(filepath.Join(outDirs[0], utils.ManifestFile), j.Custom); len(missing) > 0 && os.Getenv("C12_SKIP_EMITTED_CHECK") == "" {
+			fail("emitted-manifest-loses-isCustom", fmt.Sprintf("the manifest the generator emits says isCustom=false for %v although "+
+				"the hand-written type file made them custom in this very run", missing), "v2/cmd/cmd.go:GenerateCode (manifest written before LocateCustomTyperefs)")
+			return r
+		}
+		// (5c) regenerating into the SAME directory leaves the hand-written files alone and reproduces the same bytes
+		g := mgen.RunGen(rungen, mpath, outDirs[0], deps, false)
+		r.full = append(r.full, g)
+		if g.Exit != 0 {
+			fail("generator-fails:"+g.Status+":"+errClass(g.Detail), "regenerating over an existing output directory fails", "v2/cmd/cmd.go:GenerateCode")
+			return r
+		}
+		if diff := diffFiles(r.files[0], snapshot(outDirs[0])); diff != "" {
+			fail("regeneration-in-place-differs", "regenerating over an existing output directory (with hand-written files) changes files: "+diff,
+				"v2/codegen/utils/codefile.go:CleanTargetDir")
 			return r
 		}
 	}
@@ -509,7 +561,85 @@ func runJob(j *job) *result {
 			return r
 		}
 	}
+	// (7) two-step generation: a second project generated against the manifest EMITTED above builds too
+	if len(j.Downstream) > 0 {
+		dname := j.Name + "d"
+		dpath := filepath.Join(scratch, dname+".json")
+		must(os.WriteFile(dpath, j.Downstream, 0o644))
+		ddeps := []string{ws.DependencyManifest(), filepath.Join(outDirs[0], utils.ManifestFile)}
+		var snaps []map[string]string
+		for _, d := range []string{ws.DirFor(dname), filepath.Join(scratch, "run2", dname)} {
+			g := mgen.RunGen(rungen, dpath, d, ddeps, false)
+			r.full = append(r.full, g)
+			if g.Exit != 0 {
+				fail("dependent-project:generator-fails:"+g.Status+":"+errClass(g.Detail), "a project generated against the emitted manifest "+
+					"of another project does not generate", "v2/cmd/cmd.go:GenerateCode")
+				return r
+			}
+			snaps = append(snaps, snapshot(d))
+		}
+		if diff := diffFiles(snaps[0], snaps[1]); diff != "" {
+			fail("nondeterministic-output", "repeated generation of the dependent project is not byte-identical: "+diff, "v2/cmd/cmd.go:GenerateCode")
+			return r
+		}
+		for _, step := range [][]string{{"vet", "./" + dname + "/..."}, {"test", "-count=1", "./" + dname + "/..."}} {
+			if out, good := ws.Go(step...); !good {
+				r.buildOut = out
+				fail("dependent-project:output-does-not-compile:"+classify(out), "go "+step[0]+" of a project generated against the emitted "+
+					"manifest of another project fails: "+tailStr(strings.TrimSpace(out), 300), "generated code")
+				return r
+			}
+		}
+	}
 	return r
+}
+
+func placeFiles(dir string, files map[string]string) {
+	for rel, content := range files {
+		p := filepath.Join(dir, rel)
+		must(os.MkdirAll(filepath.Dir(p), 0o755))
+		must(os.WriteFile(p, []byte(content), 0o644))
+	}
+}
+
+func isCustom(j *job, e mgen.RegEntry) bool {
+	for _, c := range j.Custom {
+		if c.NS == e.Namespace && c.Name == e.Name {
+			return true
+		}
+	}
+	return false
+}
+
+func notCustomInEmitted(path string, want []mgen.Ref) (missing []string) {
+	b, err := os.ReadFile(path)
+	if err != nil {
+		return []string{"(emitted manifest unreadable: " + err.Error() + ")"}
+	}
+	var m struct {
+		InputDataTypes []struct {
+			Typeref *struct {
+				Name      string `json:"name"`
+				Namespace string `json:"namespace"`
+				IsCustom  bool   `json:"isCustom"`
+			} `json:"typeref"`
+		} `json:"inputDataTypes"`
+	}
+	if err := json.Unmarshal(b, &m); err != nil {
+		return []string{"(emitted manifest unparsable)"}
+	}
+	for _, w := range want {
+		found := false
+		for _, dt := range m.InputDataTypes {
+			if dt.Typeref != nil && dt.Typeref.Name == w.Name && dt.Typeref.Namespace == w.NS && dt.Typeref.IsCustom {
+				found = true
+			}
+		}
+		if !found {
+			missing = append(missing, w.Full())
+		}
+	}
+	return missing
 }
 
 // chainCycle: is there a chain of type references t0 -> ... -> tk (types of the input root) with t0 and tk in the same
